@@ -520,10 +520,10 @@ def setitem(interp, st, base, idx, v):
             if a.readonly:
                 interp.oblige(st, "readonly-write", False, "write to read-only input")
             if m is True:
-                st.wbuf(a.bufid)[p] = new
+                st.wbuf(a.bufid, p)[p] = new
             else:
                 old = st.heap[a.bufid][p]
-                st.wbuf(a.bufid)[p] = interp.A.ite(m, new, old)
+                st.wbuf(a.bufid, p)[p] = interp.A.ite(m, new, old)
         return
     if not isinstance(idx, tuple):
         idx = (idx,)
@@ -577,7 +577,7 @@ def setitem(interp, st, base, idx, v):
         interp.oblige(st, "readonly-write", False, "write to read-only input")
     if not sym_axes:
         for p, x in zip(view0.positions(), src):
-            st.wbuf(a.bufid)[p] = x
+            st.wbuf(a.bufid, p)[p] = x
         return
     import itertools
     for cand in itertools.product(*[range(n) for _, _, n in sym_axes]):
@@ -586,7 +586,7 @@ def setitem(interp, st, base, idx, v):
         view = Arr(a.bufid, off, shape, strides, a.dtype)
         for p, x in zip(view.positions(), src):
             old = st.heap[a.bufid][p]
-            st.wbuf(a.bufid)[p] = interp.A.ite(cond, x, old)
+            st.wbuf(a.bufid, p)[p] = interp.A.ite(cond, x, old)
 
 
 # ---------------------------------------------------------------- attributes
@@ -775,13 +775,13 @@ def np_arange(interp, st, *args, dtype=None, **kw):
 def _copy(interp, st, a, *args, **kw):
     if isinstance(a, CArr):
         return a
-    return interp.new_array(st, a.shape, a.dtype, cells=[st.heap[a.bufid][p] for p in a.positions()])
+    return interp.new_array(st, a.shape, a.dtype, cells=interp.arr_cells(st, a))
 
 
 def _flatten(interp, st, a, *args, **kw):
     if isinstance(a, CArr):
         return a
-    return interp.new_array(st, (a.size,), a.dtype, cells=[st.heap[a.bufid][p] for p in a.positions()])
+    return interp.new_array(st, (a.size,), a.dtype, cells=interp.arr_cells(st, a))
 
 
 def _ravel(interp, st, a, *args, **kw):
@@ -791,7 +791,7 @@ def _ravel(interp, st, a, *args, **kw):
 def _reshape(interp, st, a, *shape, **kw):
     if len(shape) == 1 and isinstance(shape[0], (tuple, list)):
         shape = tuple(shape[0])
-    cells = [st.heap[a.bufid][p] for p in a.positions()]
+    cells = interp.arr_cells(st, a)
     shape = list(shape)
     if -1 in shape:
         k = shape.index(-1)
@@ -866,7 +866,7 @@ def _sort_inplace(interp, st, a, **kw):
     else:
         srt = sorted(vals)
     for p, x in zip(a.positions(), srt):
-        st.wbuf(a.bufid)[p] = x
+        st.wbuf(a.bufid, p)[p] = x
 
 
 def _item(interp, st, a, *args):
@@ -911,7 +911,7 @@ def _sort_any(interp, st, a, **kw):
         srt = try_concrete_order(interp, st, vals)
         if srt is not None and len(srt) == len(vals):
             for p, x in zip(a.positions(), srt):
-                st.wbuf(a.bufid)[p] = x
+                st.wbuf(a.bufid, p)[p] = x
             return None
     return _sort_inplace(interp, st, a)
 
@@ -1614,9 +1614,19 @@ def np_array_fn(interp, st, obj, dtype=None, **kw):
     return np_array(interp, st, obj, dtype, **kw)
 
 
+class PRange:
+    """numba.prange(...): iterations may run in any order on any thread (the For handler tags them for the race analysis)."""
+
+    def __init__(self, inner):
+        self.inner = inner
+
+
 @native
 def numba_prange(interp, st, *args):
-    return b_range(interp, st, *args)
+    r = b_range(interp, st, *args)
+    if isinstance(r, range):
+        return PRange(r)
+    return r
 
 
 def _dtype_caller(name):
